@@ -50,6 +50,19 @@ def run(case):
     if case["mode"] == "ddp":
         S = c06.make_setup({"seed": case["seed"]})
         S["T"] = min(S["T"], 3)
+        if case["seed"][-1] % 6 == 0 and S["W"] >= 2 and not S.get("groups"):
+            # a multi-block parameter FOLLOWED by further parameters, blocks of unequal size: the layout in which the owner of a
+            # block (state placement, block info) and the segment of its buffer view can drift apart
+            import random as _r
+
+            rr = _r.Random(case["seed"][-1])
+            S["cfg"]["use_merge_dims"] = False
+            S["cfg"]["max_preconditioner_dim"] = rr.choice([3, 4, 5])
+            S["shapes"] = [[rr.choice([7, 9, 10, 11]), rr.choice([2, 3, 4])], [rr.choice([3, 5])], [rr.choice([2, 4]), 2], [rr.choice([6, 8])]][: rr.choice([3, 4])]
+            while sum(-(-s[0] // S["cfg"]["max_preconditioner_dim"]) for s in S["shapes"]) < S["G"]:
+                S["shapes"].append([5])
+            S["presence"] = [[True] * len(S["shapes"]) for _ in range(S["T"])]
+            S["pdts"] = None
         if case["seed"][-1] % 2 == 0:
             # communication dtype WIDER than the parameter dtype: buffer slots must be sized by the communication dtype
             S["cfg"]["param_dtype"] = "bfloat16"
